@@ -10,7 +10,7 @@ ROMAN_NUMERALS: Sequence[str] = (
     "V",
     "VI",
     "VII",
-    "VII",
+    "VIII",
     "IX",
     "X",
     "XI",
